@@ -265,6 +265,12 @@ func Run(sc *Scenario, o RunOpts) *RunResult {
 				continue
 			}
 			pr.ID = id
+			// ids are taken from the STORED plan, read with the id Submit returned: that Submit also writes them into
+			// the caller's object is an implementation detail ("Using the Plan object after submitting it results in
+			// undefined behavior")
+			if stored, rerr := ws.Plan(ctx, id); rerr == nil && stored != nil {
+				plan = stored
+			}
 			l.registerIDs(pi, plan)
 			pr.Pristine = CopyPlan(plan)
 		}
@@ -312,7 +318,7 @@ func Run(sc *Scenario, o RunOpts) *RunResult {
 				e.Err = " err=" + err.Error()
 			}
 			l.add(e)
-			l.lastProgress = time.Now()
+			l.progressed()
 			l.mu.Unlock()
 			results <- waitRes{pi: pi, plan: p, err: err, idx: idx}
 		}(pi, pr.ID)
